@@ -9,6 +9,7 @@ package replfx
 import (
 	"context"
 	"fmt"
+	"sync/atomic"
 	"time"
 
 	"github.com/jamf/regatta/regattapb"
@@ -34,6 +35,9 @@ type Pair struct {
 	Queue   *storage.IndexNotificationQueue
 	Fwd     *enginefx.Server // follower API: ForwardingKVServer
 	FwdConn *grpc.ClientConn
+	// OnApplied, if set, is called on the follower's apply path right after every Update call of a table state machine (the applied-index
+	// listener): the apply loop is paused inside it, so stale reads issued from it see exactly the state that Update call left.
+	OnApplied atomic.Pointer[func(table string, rev uint64)]
 }
 
 type Opts struct {
@@ -49,7 +53,12 @@ func NewPair(o Opts) (*Pair, error) {
 		return nil, fmt.Errorf("leader: %w", err)
 	}
 	fo := o.Follower
-	fo.Applied = p.Queue.Notify
+	fo.Applied = func(table string, rev uint64) {
+		p.Queue.Notify(table, rev)
+		if h := p.OnApplied.Load(); h != nil {
+			(*h)(table, rev)
+		}
+	}
 	if p.F, err = enginefx.Start(fo); err != nil {
 		_ = p.L.Stop()
 		return nil, fmt.Errorf("follower: %w", err)
